@@ -252,6 +252,19 @@ def correspondence(rep, ctx):
         res["by_id"] = outcome(lambda: rd.Nuclide(rd.Nuclide(name).id).nuclide)
         exp = {"Nuclide": ("ok", name), "Inventory": ("ok", [name]), "InventoryHP": ("ok", [name]),
                "remove": ("ok", []), "half_life": ("ok", True), "by_id": ("ok", name)}
+        # the pairwise dataset queries: the spelling (or id) may name the parent or the progeny
+        i_ = list(dd.nuclides).index(name)
+        kids = [str(p) for p in dd.progeny[i_] if str(p) in set(dnames)]
+        if kids:
+            kid = kids[0]
+            res["bf(spelled parent)"] = outcome(lambda: (dd.branching_fraction(s, kid), dd.decay_mode(s, kid)) == (dd.branching_fraction(name, kid), dd.decay_mode(name, kid)) and dd.branching_fraction(name, kid) > 0)
+            exp["bf(spelled parent)"] = ("ok", True)
+        pars = [j_ for j_, ps in enumerate(dd.progeny) if name in [str(p) for p in ps]]
+        if pars:
+            par = str(dd.nuclides[pars[0]])
+            for label_, arg_ in (("bf(spelled progeny)", s), ("bf(progeny id)", rd.Nuclide(name).id)):
+                res[label_] = outcome(lambda a_=arg_: (dd.branching_fraction(par, a_), dd.decay_mode(par, a_)) == (dd.branching_fraction(par, name), dd.decay_mode(par, name)) and dd.branching_fraction(par, name) > 0)
+                exp[label_] = ("ok", True)
         for k in exp:
             if res[k] != exp[k]:
                 rep.violation("failing-input", f"{k} with spelling {s!r}: {res[k]}, expected {exp[k]}",
